@@ -27,8 +27,8 @@
     is no fsync step in the model and none in _pickle_save. *)
 From Coq Require Import List NArith ZArith Bool Arith Ascii String.
 From MxlBase Require Import ListX.
-From CacheFS Require Import CacheKeys CacheFS CacheFSSpec CacheCodec CacheObject GenCacheFacts ExpectedFacts
-  CacheKeysProofs CacheFSProofs CacheSessionProofs CacheCodecProofs CacheFSProps.
+From CacheFS Require Import CacheKeys CacheFS CacheFSSpec CacheCodec CacheObject CacheLife GenCacheFacts ExpectedFacts
+  CacheKeysProofs CacheFSProofs CacheSessionProofs CacheCodecProofs CacheLifeProofs CacheFSProps.
 Import ListNotations.
 
 Theorem C19_facts_pinned : gen_cache_facts = mkCacheFacts SaveTempReplace true true C19_expected_name.
@@ -354,6 +354,151 @@ Theorem C19_temp_name_to_save_fn_refuted :
            res1 = Some (run_uncached Z Z.of_N items) /\ res2 = Some (run_uncached Z Z.of_N items) /\ c2 = 0).
 Proof. exact temp_name_to_save_fn_refuted. Qed.
 Print Assumptions C19_temp_name_to_save_fn_refuted.
+
+(** ---- THE LIFE OF A CACHE OBJECT AND ITS DIRECTORY (CacheLife.v; big-step: complete runs, whole files; several
+    directories; between the runs the events of a working session: a new Cache object [LNew d], the object pointed
+    at another directory [LRetarget d] (attribute assignment, no __init__), the directory wiped [LWipe]).
+    [world]: the directories that exist; [WGood]: every file in every directory holds the result of its key;
+    [lmiss_o lk (w c)]: what a run has to evaluate -- the pairs whose file is absent (all, when the directory does not
+    exist), plus, ONLY for the lookup kind LkNoneIsMiss, the pairs whose result is None.
+    Facts of the tree: _load_or_run takes the EXISTENCE of the file for "result available" and returns what is stored,
+    whatever it is (LkExists; seeded/C19-7: a helper answers None for "nothing usable"); parallelise creates
+    cache.tmp_dir at the start of EVERY run (MkAtRun; seeded/C19-8: only Cache.__post_init__ does) *)
+Theorem C19_life_facts_pinned : gen_lookup = LkExists /\ gen_mkdir = MkAtRun.
+Proof. vm_compute. split; reflexivity. Qed.
+Print Assumptions C19_life_facts_pinned.
+
+(** ONE RUN AT ANY POINT OF A SESSION, whatever happened before (other runs, new / re-targeted / copied objects, wiped
+    directories -- all that is left of them is the world [w] and the directory [c] the object points to, which may
+    not exist): it returns the uncached results -- for EVERY result type, None and other falsy values included: [isnone]
+    is arbitrary and plays no role for the tree's lookup --, evaluates fn exactly on the pairs whose files are absent,
+    stores every result of the run, leaves the other directories alone and the world Good *)
+Theorem C19_run_at_any_point_of_a_session :
+  forall (V : Type) (fnv : N -> V) (name : N -> N) (isnone : V -> bool) (all : list (N * N))
+         (w : world V) (c : N) (items : list (N * N)),
+    NoDup (map (fun kx => name (fst kx)) all) -> WGood V fnv name all w ->
+    incl items all -> NoDup (map (fun kx => name (fst kx)) items) ->
+    exists w',
+      lstep V fnv name isnone gen_lookup gen_mkdir (mkL V w c) (LRun items)
+      = (mkL V w' c, Some (Some (run_uncached V fnv items),
+                           length (filter (lmiss_o V fnv name isnone gen_lookup (w c)) items)))
+      /\ WGood V fnv name all w'
+      /\ (exists dir', w' c = Some dir' /\ forall k x, In (k, x) items -> dir' (name k) = Some (fnv x))
+      /\ (forall j, j <> c -> w' j = w j).
+Proof. exact (lstep_run_tree gen_lookup gen_mkdir C19_life_facts_pinned). Qed.
+Print Assumptions C19_run_at_any_point_of_a_session.
+
+(** ANY HISTORY of runs, new objects, re-targeted objects and wiped directories, in any order, from any Good world:
+    EVERY run returns the uncached results (no run raises), and the world stays Good *)
+Theorem C19_any_history_returns_uncached :
+  forall (V : Type) (fnv : N -> V) (name : N -> N) (isnone : V -> bool) (all : list (N * N))
+         (evs : list lev) (s : lstate V),
+    NoDup (map (fun kx => name (fst kx)) all) -> WGood V fnv name all (l_world V s) -> Forall (ev_ok name all) evs ->
+    Forall (fun r => snd (fst r) = Some (run_uncached V fnv (fst (fst r))))
+           (lhist V fnv name isnone gen_lookup gen_mkdir s evs)
+    /\ WGood V fnv name all (l_world V (lfinal V fnv name isnone gen_lookup gen_mkdir s evs)).
+Proof. exact (life_history_tree gen_lookup gen_mkdir C19_life_facts_pinned). Qed.
+Print Assumptions C19_any_history_returns_uncached.
+
+(** a REPEATED run evaluates nothing, WHATEVER the results are (which of them are None is irrelevant) *)
+Theorem C19_repeated_run_evaluates_nothing_whatever_the_results :
+  forall (V : Type) (fnv : N -> V) (name : N -> N) (isnone : V -> bool) (all : list (N * N))
+         (w : world V) (c : N) (items : list (N * N)),
+    NoDup (map (fun kx => name (fst kx)) all) -> WGood V fnv name all w ->
+    incl items all -> NoDup (map (fun kx => name (fst kx)) items) ->
+    exists n1,
+      lhist V fnv name isnone gen_lookup gen_mkdir (mkL V w c) [LRun items; LRun items]
+      = [(items, Some (run_uncached V fnv items), n1); (items, Some (run_uncached V fnv items), 0)].
+Proof. exact (repeated_run_tree gen_lookup gen_mkdir C19_life_facts_pinned). Qed.
+Print Assumptions C19_repeated_run_evaluates_nothing_whatever_the_results.
+
+(** the cache directory wiped between two runs with ONE object: the second run returns the uncached results again
+    and evaluates everything *)
+Theorem C19_wipe_then_rerun :
+  forall (V : Type) (fnv : N -> V) (name : N -> N) (isnone : V -> bool) (all : list (N * N))
+         (w : world V) (c : N) (items : list (N * N)),
+    NoDup (map (fun kx => name (fst kx)) all) -> WGood V fnv name all w ->
+    incl items all -> NoDup (map (fun kx => name (fst kx)) items) ->
+    exists n1,
+      lhist V fnv name isnone gen_lookup gen_mkdir (mkL V w c) [LRun items; LWipe; LRun items]
+      = [(items, Some (run_uncached V fnv items), n1); (items, Some (run_uncached V fnv items), length items)].
+Proof. exact (wipe_then_rerun_tree gen_lookup gen_mkdir C19_life_facts_pinned). Qed.
+Print Assumptions C19_wipe_then_rerun.
+
+(** REGRESSION (seeded/C19-7): "None = nothing usable".  Every run still returns the uncached results, but the
+    repeated run evaluates fn once for every pair whose result IS None -- in general, and on the witness (results
+    None, 16, None): evaluations 3, 2, 2 instead of 3, 0, 0 *)
+Theorem C19_none_is_miss_refuted :
+  (forall (V : Type) (fnv : N -> V) (name : N -> N) (isnone : V -> bool) (all : list (N * N)) mk
+          (w : world V) (c : N) (items : list (N * N)),
+      NoDup (map (fun kx => name (fst kx)) all) -> WGood V fnv name all w ->
+      incl items all -> NoDup (map (fun kx => name (fst kx)) items) -> mk <> MkAtConstruct \/ w c <> None ->
+      exists n1,
+        lhist V fnv name isnone LkNoneIsMiss mk (mkL V w c) [LRun items; LRun items]
+        = [(items, Some (run_uncached V fnv items), n1);
+           (items, Some (run_uncached V fnv items), length (filter (fun kx => isnone (fnv (snd kx))) items))])
+  /\ NoDup (map (fun kx : N * N => fst kx) w_items)
+  /\ map (fun r => snd r) (lhist Z w_fn (fun k => k) w_none LkNoneIsMiss MkAtRun (mkL Z world_empty 0)
+                                 [LNew 0; LRun w_items; LRun w_items; LRun w_items]) = [3; 2; 2]
+  /\ map (fun r => snd r) (lhist Z w_fn (fun k => k) w_none LkExists MkAtRun (mkL Z world_empty 0)
+                                 [LNew 0; LRun w_items; LRun w_items; LRun w_items]) = [3; 0; 0]
+  /\ map (fun r => snd (fst r)) (lhist Z w_fn (fun k => k) w_none LkNoneIsMiss MkAtRun (mkL Z world_empty 0)
+                                 [LNew 0; LRun w_items; LRun w_items])
+     = [Some (run_uncached Z w_fn w_items); Some (run_uncached Z w_fn w_items)].
+Proof. exact none_is_miss_refuted. Qed.
+Print Assumptions C19_none_is_miss_refuted.
+
+(** REGRESSION (seeded/C19-8): the directory created when the Cache object is CONSTRUCTED, not at the start of a run.
+    A fresh object works (first run: everything evaluated, uncached results); after a wipe the run over any non-empty
+    list RAISES, and so does a run after pointing the object at a directory that does not exist -- where the run
+    without cache returns.  Witness history new, run, run, wipe, run, retarget, run, new, run: construct-time mkdir
+    returns, returns (0 evaluations), raises, raises, returns; the tree's run-time mkdir returns five times *)
+Theorem C19_mkdir_at_construct_refuted :
+  (forall (V : Type) (fnv : N -> V) (name : N -> N) (isnone : V -> bool) (all : list (N * N)) lk d k x r,
+      NoDup (map (fun kx => name (fst kx)) all) ->
+      incl ((k, x) :: r) all -> NoDup (map (fun kx => name (fst kx)) ((k, x) :: r)) ->
+      lhist V fnv name isnone lk MkAtConstruct (mkL V world_empty 0) [LNew d; LRun ((k, x) :: r); LWipe; LRun ((k, x) :: r)]
+      = [((k, x) :: r, Some (run_uncached V fnv ((k, x) :: r)), S (length r)); ((k, x) :: r, None, 1)]
+      /\ forall w c d', w d' = None ->
+           lhist V fnv name isnone lk MkAtConstruct (mkL V w c) [LRetarget d'; LRun ((k, x) :: r)] = [((k, x) :: r, None, 1)])
+  /\ map (fun r => (snd (fst r), snd r))
+      (lhist Z w_fn (fun k => k) w_none LkExists MkAtConstruct (mkL Z world_empty 0)
+             [LNew 0; LRun w_items; LRun w_items; LWipe; LRun w_items; LRetarget 1; LRun w_items; LNew 2; LRun w_items])
+     = [(Some (run_uncached Z w_fn w_items), 3); (Some (run_uncached Z w_fn w_items), 0); (None, 1); (None, 1);
+        (Some (run_uncached Z w_fn w_items), 3)]
+  /\ map (fun r => (snd (fst r), snd r))
+      (lhist Z w_fn (fun k => k) w_none LkExists MkAtRun (mkL Z world_empty 0)
+             [LNew 0; LRun w_items; LRun w_items; LWipe; LRun w_items; LRetarget 1; LRun w_items; LNew 2; LRun w_items])
+     = [(Some (run_uncached Z w_fn w_items), 3); (Some (run_uncached Z w_fn w_items), 0);
+        (Some (run_uncached Z w_fn w_items), 3); (Some (run_uncached Z w_fn w_items), 3);
+        (Some (run_uncached Z w_fn w_items), 3)].
+Proof. exact mkdir_at_construct_refuted. Qed.
+Print Assumptions C19_mkdir_at_construct_refuted.
+
+(** non-vacuity of the life statements with the facts of the tree: keys 1, 2, 3 with inputs 3, 4, 6 and results
+    None, 16, None (w_fn: 0 stands for None, [w_none] recognises it); the world after  new, run  is Good, holds the
+    three results (two of them None) in directory 0, and the history  run, wipe, run, retarget 1, run, retarget 0, run
+    evaluates 0, 3, 3, 0 results *)
+Example C19_nonvacuous_life :
+  let s1 := lfinal Z w_fn (fun k => k) w_none gen_lookup gen_mkdir (mkL Z world_empty 0) [LNew 0; LRun w_items] in
+  NoDup (map (fun kx : N * N => fst kx) w_items)
+  /\ Forall (ev_ok (fun k => k) w_items) [LRun w_items; LWipe; LRun w_items; LRetarget 1; LRun w_items; LRetarget 0; LRun w_items]
+  /\ (exists dir, l_world Z s1 0%N = Some dir /\ map (fun kx : N * N => dir (fst kx)) w_items = [Some 0%Z; Some 16%Z; Some 0%Z])
+  /\ map (fun v => w_none v) [0%Z; 16%Z] = [true; false]
+  /\ map (fun r => snd r)
+         (lhist Z w_fn (fun k => k) w_none gen_lookup gen_mkdir s1
+                [LRun w_items; LWipe; LRun w_items; LRetarget 1; LRun w_items; LRetarget 0; LRun w_items]) = [0; 3; 3; 0].
+Proof.
+  cbv zeta. split; [|split; [|split; [|split]]].
+  - repeat constructor; cbn; intuition discriminate.
+  - assert (Hok : ev_ok (fun k : N => k) w_items (LRun w_items)).
+    { split; [apply incl_refl | repeat constructor; cbn; intuition discriminate]. }
+    repeat (constructor; [first [exact Hok | exact I]|]). constructor.
+  - eexists. split; [vm_compute; reflexivity | vm_compute; reflexivity].
+  - vm_compute. reflexivity.
+  - vm_compute. reflexivity.
+Qed.
+Print Assumptions C19_nonvacuous_life.
 
 (** the run is killed after ANY prefix [sched1] of ANY interleaving (before, between and after the
     bytes of every result file, before/after the close and the replace), under ANY flush policy
